@@ -194,6 +194,14 @@ def main(argv):
   want = list(spec.get("kani_quick", []))
   if tier == "thorough":
     want += [h for h in spec.get("kani_thorough", []) if h not in want]
+  # bounded fallback deciders: when a Verus unit of this property could not decide (lost anchor of a declared rewrite,
+  # construct outside Verus' subset -- typically after an edit of /repo), the bounded Kani harnesses registered for the
+  # property run on the real crate; a failing one is a violation with a replayed counterexample, a passing one leaves
+  # the check undecided (exit 2)
+  if undecided:
+    for h in spec.get("kani_fallback", []):
+      if h not in want:
+        want.append(h)
   # paired harnesses for unexplained Verus failures
   new_fail = []
   known_lines = []
